@@ -611,7 +611,11 @@ func constGV(v *Val) (GV, string, bool) {
 	case "int":
 		return int(v.I), "int", true
 	case "float":
-		return parseFloat(v.F), "float", true
+		f := parseFloat(v.F)
+		if f == 0 {
+			f = 0 // a constant is reproduced up to the sign of zero (Unx in Values.tla)
+		}
+		return f, "float", true
 	case "bool":
 		return v.B, "bool", true
 	case "string", "pstring":
